@@ -5,7 +5,7 @@ func init() { props["C01"] = runC01 }
 func runC01(c *Ctx) {
 	n := 600
 	if c.Thorough() {
-		n = 12000
+		n = 4000
 	}
 	c.Sum.Rule = "random implementation-steered histories (browser/attacker/IdP simulator, virtual clock) of 8-40 requests x {memory, redis(miniredis)} x 5 filter configurations x 7 (absolute, idle) session timeouts of the store incl. none, " +
 		"with store faults (before/after effect, singly and in pairs, at random call indices), key-lookup failures and adversarial provider answers; " +
